@@ -142,6 +142,9 @@ func (c *Ctx) anchors() *Anchors {
 		}
 		a.FlagAlloc[name] = call.Call.Args[1]
 		kind := strings.TrimSuffix(strings.TrimSuffix(m, "P"), "Var")
+		if kind == "" {
+			kind = "custom" // VarP / Var with a pflag.Value implementation
+		}
 		a.FlagKind[name] = strings.ToLower(kind[:1]) + kind[1:]
 	})
 	for _, mc := range mcs {
